@@ -13,3 +13,6 @@ func (p *PriorityQueue[T]) VerifHeapDump() (arr []T, ok bool) {
 	copy(arr, p.data[1:])
 	return arr, true
 }
+
+// VerifDataCap returns cap(p.data) (slot 0 included), for the capacity rule of C05 (HeapCapModel).
+func (p *PriorityQueue[T]) VerifDataCap() int { return cap(p.data) }
